@@ -662,8 +662,38 @@ func main() {
 		checkMain(os.Args[2:])
 	case "worker":
 		workerMain(os.Args[2:])
+	case "replay":
+		replayMain(os.Args[2:])
 	default:
 		fmt.Fprintln(os.Stderr, "unknown command", os.Args[1])
 		os.Exit(2)
+	}
+}
+
+// replayMain: gosym replay <ID> <replay.json> - runs a recorded vector against
+// the native build of /repo (harness overlaid) and prints the verdict.
+func replayMain(args []string) {
+	if len(args) < 2 {
+		fatal(fmt.Errorf("usage: gosym replay <ID> <replay.json>"))
+	}
+	spec := loadSpec(args[0])
+	b, err := os.ReadFile(args[1])
+	if err != nil {
+		fatal(err)
+	}
+	var rf replayFile
+	if err := json.Unmarshal(b, &rf); err != nil {
+		fatal(err)
+	}
+	rp := newReplayer(spec.Entries)
+	defer rp.close()
+	if rp.err != nil {
+		fatal(rp.err)
+	}
+	v, _ := rp.run(rf)
+	fmt.Println(v)
+	if strings.HasPrefix(v, "REPLAY-FAIL") || strings.HasPrefix(v, "REPLAY-PANIC") || strings.HasPrefix(v, "REPLAY-CRASH") {
+		fmt.Printf("VIOLATION property=%s replay=%s\n", spec.ID, args[1])
+		os.Exit(1)
 	}
 }
